@@ -241,8 +241,22 @@ theorem closeSend_inv (c : Chan) (h : CInv c) : CInv (closeSend c).c := by
 theorem discardRecv_inv (c : Chan) (h : CInv c) : CInv (discardRecv c).c := by
   chan_inv h [discardRecv]
 
+theorem pauseResumeWriting_inv (c : Chan) (h : CInv c) : CInv (pauseResumeWriting c).c := by
+  chan_inv h [pauseResumeWriting]
+
+theorem closeSendEof_inv (c : Chan) (h : CInv c) : CInv (closeSendEof c).c := by
+  chan_inv h [closeSendEof, closeSend]
+
+theorem flushSendTail_inv (c : Chan) (h : CInv c) : CInv (flushSendTail c).c := by
+  chan_inv h [flushSendTail, closeSendEof, closeSend]
+
 theorem flushSendBuf_inv (c : Chan) (h : CInv c) : CInv (flushSendBuf c).c := by
-  chan_inv h [flushSendBuf, closeSend]
+  unfold flushSendBuf
+  refine andThen_c _ _ ?_ flushSendTail_inv
+  simp only [pre_c]
+  apply pauseResumeWriting_inv
+  obtain ⟨h1, h2, h3, h4, h5, h6, h7, h8, h9, h10, h11, h12, h13, h14⟩ := h
+  constructor <;> grind
 
 theorem writeEof_inv (c : Chan) (h : CInv c) : CInv (writeEof c).c := by
   unfold writeEof
@@ -340,13 +354,19 @@ theorem processEof_inv (c : Chan) (h : CInv c) : CInv (processEof c).c := by
 theorem closeSend_recvSt (c : Chan) : (closeSend c).c.recvSt = c.recvSt := by
   simp only [closeSend]; split <;> rfl
 
+theorem pauseResumeWriting_recvSt (c : Chan) : (pauseResumeWriting c).c.recvSt = c.recvSt := by
+  simp only [pauseResumeWriting]; (repeat' split) <;> rfl
+
 theorem processClose_inv (c : Chan) (h : CInv c) : CInv (processClose c).c := by
   unfold processClose
   split
   · exact h
   · rename_i hl
-    refine andThen_c2 (Q := fun x => CInv x ∧ x.recvSt = c.recvSt) _ _
-      ⟨closeSend_inv c h, closeSend_recvSt c⟩ (fun hq => hq.1) ?_
+    refine andThen_c2 (Q := fun x => CInv x ∧ x.recvSt = c.recvSt) _ _ ?_ (fun hq => hq.1) ?_
+    · refine andThen_c2 (Q := fun x => CInv x ∧ x.recvSt = c.recvSt) (P := fun x => CInv x ∧ x.recvSt = c.recvSt) _ _
+        ⟨closeSend_inv c h, closeSend_recvSt c⟩ (fun hq => hq) ?_
+      intro c1 ⟨hc, hr⟩
+      exact ⟨pauseResumeWriting_inv c1 hc, (pauseResumeWriting_recvSt c1).trans hr⟩
     intro c1 ⟨hc, hr⟩
     apply flushRecvBuf_inv
     obtain ⟨h1, h2, h3, h4, h5, h6, h7, h8, h9, h10, h11, h12, h13, h14⟩ := hc
@@ -470,5 +490,14 @@ theorem appOp_inv (o : AppOp) (c : Chan) (h : CInv c) : CInv (appOp c o).c := by
   | pause => exact pauseReading_inv c h
   | resume => exact resumeReading_inv c h
   | exit => simp only [appOp]; split; exact exit_inv c h; exact h
+  | limits hi lo =>
+    simp only [appOp, setLimits]
+    apply pauseResumeWriting_inv
+    obtain ⟨h1, h2, h3, h4, h5, h6, h7, h8, h9, h10, h11, h12, h13, h14⟩ := h
+    constructor <;> grind
+  | drain =>
+    obtain ⟨h1, h2, h3, h4, h5, h6, h7, h8, h9, h10, h11, h12, h13, h14⟩ := h
+    simp only [appOp, drain, ok_c]
+    split <;> (constructor <;> grind)
 
 end AsyncsshModel.Lifecycle
